@@ -99,6 +99,12 @@ Shapes(k, st) ==
       [shape |-> "wholefile", site |-> s.site,
        u |-> U(<<Slot(W1, k, "", Conc("W", <<Ch(s.site, s.kind, R(W1, A1, s.kind, "Y", st))>>)),
                  Slot(A1, s.kind, "Y", Conc("Y", <<>>))>>, RW(Root, W1, st), k)],
+      [shape |-> "backref", site |-> s.site,        \* an external object referring back into the root document
+       u |-> U(<<Slot(A1, k, "X", Conc("X", <<Ch(s.site, s.kind, R(A1, Root, s.kind, "Y", st))>>)),
+                 Slot(Root, s.kind, "Y", Conc("RootY", <<>>))>>, R(Root, A1, k, "X", st), k)],
+      [shape |-> "collision", site |-> s.site,      \* two different files whose default internalised names coincide
+       u |-> U(<<Slot(<<"r", "sub", "a.json">>, k, "X", Conc("X", <<>>)), Slot(<<"r", "sub_a.json">>, k, "X", Conc("X2", <<>>)),
+                 Slot(Root, k, "V", RefC(R(Root, <<"r", "sub_a.json">>, k, "X", st)))>>, R(Root, <<"r", "sub", "a.json">>, k, "X", st), k)],
       [shape |-> "rootchild", site |-> s.site,      \* a root component with a child site pointing out
        u |-> U(<<Slot(Root, k, "X", Conc("X", <<Ch(s.site, s.kind, R(Root, B1, s.kind, "Y", st))>>)),
                  Slot(B1, s.kind, "Y", Conc("Y", <<>>))>>, R(Root, Root, k, "X", st), k)]}
